@@ -547,6 +547,9 @@ def _resize_discr(discr, newshp, offset, discr_kwargs):
     to `uniform_discr` for further specification of discretization
     parameters.
     """
+    # Work on a copy, the caller's dictionary must not be changed
+    discr_kwargs = dict(discr_kwargs)
+
     nodes_on_bdry = discr_kwargs.get('nodes_on_bdry', False)
     if np.shape(nodes_on_bdry) == ():
         nodes_on_bdry = ([(bool(nodes_on_bdry), bool(nodes_on_bdry))] *
